@@ -1,0 +1,116 @@
+//go:build verif
+
+package msgpacker
+
+// Contracts for the govc verifier (see /verif/DESIGN.md). Comment-only: declares nothing.
+
+// ---- C14: the write batcher ---------------------------------------------------------------------
+// delivered: every pack handed to the downstream write callback so far, in call order
+// (concatenation of the slices the callback was invoked with).  hret: the callback's last result.
+//@ ghost var delivered seq[*api.ReplicateMsg]
+//@ ghost var hret error
+
+//@ purepkg github.com/milvus-io/milvus/pkg/mq/msgstream (github.com/milvus-io/milvus/pkg/mq/msgstream
+
+// catAt: element i of delivered ++ buffered
+//@ spec catAt(d seq[*api.ReplicateMsg], m []*api.ReplicateMsg, i int) *api.ReplicateMsg = ite(i < len(d), d[i], m[i - len(d)])
+
+//@ trusted func (PackerChecker).Check
+//@   params recv msg
+//@   modifies TimerChecker.lastTime, MsgCountChecker.count
+//@ trusted func (PackerChecker).Reset
+//@   params recv
+//@   modifies TimerChecker.lastTime, MsgCountChecker.count
+
+//@ func (*TimerChecker).Check
+//@   props C14
+//@   requires t != nil
+//@   modifies t.lastTime
+//@   panics never
+//@ func (*TimerChecker).Reset
+//@   props C14
+//@   requires t != nil
+//@   modifies t.lastTime
+//@   panics never
+//@ func (*MsgCountChecker).Check
+//@   props C14
+//@   requires m != nil
+//@   ensures [count-trigger] result == (wrapInt(old(m.count) + 1) >= m.maxCount)
+//@   ensures result ==> m.count == 0
+//@   ensures !result ==> m.count == wrapInt(old(m.count) + 1)
+//@   modifies m.count
+//@   panics never
+//@ func (*MsgCountChecker).Reset
+//@   props C14
+//@   requires m != nil
+//@   ensures m.count == 0
+//@   modifies m.count
+//@   panics never
+
+// The global memory budget.  myShare: what the current goroutine's batcher has added and not yet
+// removed; othersShare: the same for all other batchers (changes only while the lock is free, hence
+// protected).  Lock invariant: current == myShare + othersShare (machine arithmetic).  Together with
+// the batcher invariant myShare == currentMsgPackSize this gives: all batchers empty => current == 0.
+//@ ghost var myShare int
+//@ ghost var othersShare int
+//@ ghost var addOver bool
+//@ lockinv MemoryProtector.lock protects MemoryProtector.current, othersShare self m : m.current == wrapInt(myShare + othersShare)
+
+//@ func (*MemoryProtector).Add
+//@   props C14
+//@   requires m != nil
+//@   ghostset unlock myShare := wrapInt(myShare + msgSize)
+//@   ghostset return addOver := result
+//@   ensures myShare == wrapInt(old(myShare) + msgSize)
+//@   ensures [memory-trigger-recorded] addOver == result
+//@   modifies m.current, myShare, othersShare, addOver
+//@   panics never
+//@ func (*MemoryProtector).Remove
+//@   props C14
+//@   requires m != nil
+//@   ghostset unlock myShare := wrapInt(myShare - msgSize)
+//@   ensures myShare == wrapInt(old(myShare) - msgSize)
+//@   modifies m.current, myShare, othersShare
+//@   panics never
+
+//@ spec wfPacker(p *Packer) bool = p != nil && p.memoryProtector != nil && myShare == p.currentMsgPackSize && len(p.msgs) >= 0 && (forall i int :: 0 <= i && i < len(p.checkers) ==> p.checkers[i] != nil)
+
+//@ func (*Packer).Receive
+//@   props C14
+//@   requires wfPacker(p) && msg != nil && msg.MsgPack != nil && handler != nil
+//@   requires forall i int :: 0 <= i && i < len(msg.MsgPack.Msgs) ==> msg.MsgPack.Msgs[i] != nil
+//@   funcparam handler(batch)
+//@   funcparam handler ensures len(delivered) == old(len(delivered)) + len(batch)
+//@   funcparam handler ensures forall i int :: 0 <= i && i < len(batch) ==> delivered[old(len(delivered)) + i] == batch[i]
+//@   funcparam handler ensures forall j int :: 0 <= j && j < old(len(delivered)) ==> delivered[j] == old(delivered[j])
+//@   funcparam handler ensures hret == result
+//@   funcparam handler modifies delivered, hret
+//@   ensures [nothing-lost-nothing-invented] len(delivered) + len(p.msgs) == old(len(delivered) + len(p.msgs)) + 1
+//@   ensures [delivered-only-grows] forall i int :: 0 <= i && i < old(len(delivered)) ==> delivered[i] == old(delivered[i])
+//@   ensures [order-kept] forall i int :: 0 <= i && i < old(len(p.msgs)) ==> catAt(delivered, p.msgs, old(len(delivered)) + i) == old(p.msgs[i])
+//@   ensures [new-pack-last] catAt(delivered, p.msgs, old(len(delivered) + len(p.msgs))) == msg
+//@   ensures [flush-all-or-nothing] len(delivered) == old(len(delivered)) || len(p.msgs) == 0
+//@   ensures [callback-error-returned] len(delivered) != old(len(delivered)) ==> result == hret
+//@   ensures [no-flush-no-error] len(delivered) == old(len(delivered)) ==> result == nil
+//@   ensures [memory-trigger] addOver ==> len(delivered) != old(len(delivered))
+//@   ensures [flushed-empty] len(delivered) != old(len(delivered)) ==> p.currentMsgPackSize == 0
+//@   ensures wfPacker(p)
+//@   modifies p.msgs, p.msgs[*], p.currentMsgPackSize, MemoryProtector.current, myShare, othersShare, addOver, delivered, hret, TimerChecker.lastTime, MsgCountChecker.count
+//@   panics never
+
+//@ func (*Packer).ClearMsgs
+//@   props C14
+//@   requires wfPacker(p) && handler != nil
+//@   funcparam handler(batch)
+//@   funcparam handler ensures len(delivered) == old(len(delivered)) + len(batch)
+//@   funcparam handler ensures forall i int :: 0 <= i && i < len(batch) ==> delivered[old(len(delivered)) + i] == batch[i]
+//@   funcparam handler ensures forall j int :: 0 <= j && j < old(len(delivered)) ==> delivered[j] == old(delivered[j])
+//@   funcparam handler ensures hret == result
+//@   funcparam handler modifies delivered, hret
+//@   ensures [final-flush-complete] len(delivered) == old(len(delivered) + len(p.msgs)) && len(p.msgs) == 0
+//@   ensures [delivered-only-grows] forall i int :: 0 <= i && i < old(len(delivered)) ==> delivered[i] == old(delivered[i])
+//@   ensures [order-kept] forall i int :: 0 <= i && i < old(len(p.msgs)) ==> delivered[old(len(delivered)) + i] == old(p.msgs[i])
+//@   ensures [callback-error-returned] result == hret
+//@   ensures [budget-share] wfPacker(p) && p.currentMsgPackSize == 0
+//@   modifies p.msgs, p.msgs[*], p.currentMsgPackSize, MemoryProtector.current, myShare, othersShare, addOver, delivered, hret, TimerChecker.lastTime, MsgCountChecker.count
+//@   panics never
